@@ -280,6 +280,9 @@ TIE = {
  "C14": ("Tie by translation (coq/Props/C14_tie.v against coq/Gen/PyStats.v = the current source of physt/statistics.py): the "
          "translated Statistics.__add__, INVALID_STATISTICS, mean and variance are the model's stats_add, invalid_stats, st_mean, st_var; the "
          "statistics update inside Histogram1D.fill (histogram1d.py) is the model's fill_stats (C14_tie_fill)."),
+ "C20": ("Tie by translation (coq/Props/C20_tie.v against coq/Gen/PyTicks.v = the tick-bound statements inside the current source of "
+         "TimeTickHandler.get_time_ticks, python // and % on floats): in exact arithmetic the first and last multiple are ceil(lo/u) and "
+         "floor(hi/u) for every range and positive unit, so the ticks are the model's ticks_spec, about which soundness and completeness are proved."),
 }
 TIE_TECHNIQUE = " + tie by translation: Python->Gallina translator re-run on the current source, equivalence to the model proved for all inputs"
 TIE_NOTE = (" The translator tools/pytrans.py (fail-closed Python-ast -> Gallina, subset and typing rules in DESIGN.md 0.9) and its kernel "
